@@ -121,10 +121,19 @@ fn sig_node(n: &XmlNode) -> Result<J, String> {
         }
         XmlNode::DocumentType(t) => json!(["doctype", string_to_cps(&t.name())]),
         XmlNode::Element(x) => {
+            // names are EXPANDED names (namespace name + local part): a replacement that loses its prefix or its
+            // declaration is another element
+            let expanded = |nd: &XmlNode, fallback: String| -> String {
+                match xml_dom::AsExpandedName::as_expanded_name(nd) {
+                    Ok(Some((l, _, Some(u)))) => format!("{{{}}}{}", u, l),
+                    Ok(Some((l, _, None))) => l,
+                    _ => fallback,
+                }
+            };
             let mut attrs: Vec<(String, String)> = vec![];
             if let Some(m) = n.attributes() {
                 for a in m.iter() {
-                    attrs.push((a.name(), a.value().map_err(e)?));
+                    attrs.push((expanded(&xml_dom::AsNode::as_node(&a), a.name()), a.value().map_err(e)?));
                 }
             }
             attrs.sort();
@@ -137,7 +146,7 @@ fn sig_node(n: &XmlNode) -> Result<J, String> {
                 }
                 kids.push(s);
             }
-            json!(["elem", string_to_cps(&x.tag_name()),
+            json!(["elem", string_to_cps(&expanded(n, x.tag_name())),
                    attrs.iter().map(|(n, v)| json!([string_to_cps(n), string_to_cps(v)])).collect::<Vec<_>>(), kids])
         }
         XmlNode::ExpandedText(t) => json!(["chars", string_to_cps(&t.data().map_err(e)?)]),
